@@ -1,4 +1,9 @@
 import LyModel.Props.C05Fn
+import LyModel.Props.C01FnLyb
 #print axioms LyModel.Props.C05Fn.gen_utf8_are_model
 #print axioms LyModel.Bridge.Utf8.getutf8_eq
 #print axioms LyModel.Bridge.Utf8.pututf8_eq
+#print axioms LyModel.Props.C01FnLyb.gen_lyb_hash_shortening_is_model
+#print axioms LyModel.Props.C01FnLyb.gen_lyb_hash_id_readable
+#print axioms LyModel.Bridge.Lyb.mask_eq
+#print axioms LyModel.Bridge.Lyb.extlen_eq
